@@ -12,11 +12,14 @@ out = []
 
 def ser_method(name, sig_rw, spec_ok, extra_err="", passthru=None, extra_rw=""):
     err = "r is Err ==> final(self).writer.keeps(&old(self).writer),"
+    short = f"old(self).writer.out().len() + ({spec_ok}).len() > old(self).writer.cap()"
     if passthru:
         err += f"\n            r matches Err(Error::KeyMustBeAString) ==> !{passthru}.encodable(),"
+        err += f"\n            r matches Err(Error::BufferTooSmall) ==> {short} || !{passthru}.encodable(),"
         okpre = f"{passthru}.encodable() && "
     else:
         err += "\n            r is Err ==> (r matches Err(Error::BufferTooSmall)),"
+        err += f"\n            r is Err ==> {short},"
         okpre = ""
     out.append(f'''//@extract id=ser.{name} file={F} path="{SER}/fn {name}" tags=C03
 {N5}
@@ -57,7 +60,8 @@ def compound_ctor(name, sig_rw, ret_rw, prefix, empty_suffix, lenexpr):
                 &&& c is Map
                 &&& c->state == (if {lenexpr} {{ State::Empty }} else {{ State::First }})
                 &&& c->ser.writer.appended(&old(self).writer, {prefix} + (if {lenexpr} {{ {empty_suffix} }} else {{ Seq::<u8>::empty() }})) }}),   //# U3.compound.{name}
-            r is Err ==> (r matches Err(Error::BufferTooSmall)),   //# U3.compound.{name}.err
+            r is Err ==> (r matches Err(Error::BufferTooSmall))
+                && old(self).writer.out().len() + ({prefix} + (if {lenexpr} {{ {empty_suffix} }} else {{ Seq::<u8>::empty() }})).len() > old(self).writer.cap(),   //# U3.compound.{name}.err
 //@end
 ''')
 
@@ -93,10 +97,12 @@ def key_method(name, spec_ok=None, passthru=None, ml=False, ret_impossible=None)
     elif passthru:
         spec = f'''            r is Ok ==> {passthru}.key_ok() && final(self.ser).writer.appended(&old(self.ser).writer, {passthru}.key_enc()),   //# U3.key.{name}
             r is Err ==> final(self.ser).writer.keeps(&old(self.ser).writer),
-            r matches Err(Error::KeyMustBeAString) ==> !{passthru}.key_ok(),   //# U3.key.{name}.err'''
+            r matches Err(Error::KeyMustBeAString) ==> !{passthru}.key_ok(),
+            r matches Err(Error::BufferTooSmall) ==> old(self.ser).writer.out().len() + {passthru}.key_enc().len() > old(self.ser).writer.cap() || !{passthru}.key_ok(),   //# U3.key.{name}.err'''
     else:
         spec = f'''            r is Ok ==> final(self.ser).writer.appended(&old(self.ser).writer, {spec_ok}),   //# U3.key.{name}
-            r is Err ==> (r matches Err(Error::BufferTooSmall)) && final(self.ser).writer.keeps(&old(self.ser).writer),   //# U3.key.{name}.err'''
+            r is Err ==> (r matches Err(Error::BufferTooSmall)) && final(self.ser).writer.keeps(&old(self.ser).writer)
+                && old(self.ser).writer.out().len() + ({spec_ok}).len() > old(self.ser).writer.cap(),   //# U3.key.{name}.err'''
     out.append(f'''//@extract id=key.{name} file={F} path="{KEY}/fn {name}" tags=C03
 {N5}
 {rw}//@ spec
@@ -148,7 +154,8 @@ def elem(trait, fn, newname, what, rewrites="", passkey=False):
             r is Ok ==> {okv}{state_clause}
                 && (*final(self))->ser.writer.appended(&(*old(self))->ser.writer, {enc}),   //# U3.compound.{newname}
             r is Err ==> (*final(self))->ser.writer.keeps(&(*old(self))->ser.writer),
-            r matches Err(Error::KeyMustBeAString) ==> !{cond},   //# U3.compound.{newname}.err
+            r matches Err(Error::KeyMustBeAString) ==> !{cond},
+            r matches Err(Error::BufferTooSmall) ==> (*old(self))->ser.writer.out().len() + ({enc}).len() > (*old(self))->ser.writer.cap() || !{cond},   //# U3.compound.{newname}.err
 //@end
 ''')
 def end(trait, newname, suffix_nonempty, suffix_always="Seq::<u8>::empty()", rewrites=""):
@@ -160,7 +167,8 @@ def end(trait, newname, suffix_nonempty, suffix_always="Seq::<u8>::empty()", rew
         ensures
             r is Ok ==> final(self->ser).writer.appended(&old(self->ser).writer,
                 (if self->state == State::Empty {{ Seq::<u8>::empty() }} else {{ {suffix_nonempty} }}) + {suffix_always}),   //# U3.compound.{newname}
-            r is Err ==> (r matches Err(Error::BufferTooSmall)) && final(self->ser).writer.keeps(&old(self->ser).writer),   //# U3.compound.{newname}.err
+            r is Err ==> (r matches Err(Error::BufferTooSmall)) && final(self->ser).writer.keeps(&old(self->ser).writer)
+                && old(self->ser).writer.out().len() + ((if self->state == State::Empty {{ Seq::<u8>::empty() }} else {{ {suffix_nonempty} }}) + {suffix_always}).len() > old(self->ser).writer.cap(),   //# U3.compound.{newname}.err
 //@end
 ''')
 RB, RC = "seq![0x5du8]", "seq![0x7du8]"
